@@ -134,7 +134,32 @@ CLAIMS.update({
          "3.10, 4 (C17)"),
 })
 
+CLAIMS.update({
+ "C21": ("go/types.Implements over every accessor of the generated typed ASTs; factory exhaustiveness; template scoping rule",
+         "A type-level argument for the shipped grammars (js, tm): every accessor's unchecked assertion is satisfied by every node type its selector admits and by NilNode, wrappers match single-type selectors, and the factory covers every node type. Plus one template scoping condition. Other grammars and child coverage are not decided.",
+         "Selectors and categories are read from the generated selector package and category lists.",
+         "3.9, 4 (C21)"),
+ "C30": ("template-tree rules on bison.go.tmpl and def-use rules on its Go helpers",
+         "Decides that the export prints rules and precedences from the very lists the tables were built from, names symbols by identity, and special-cases only lookahead rules as bare %empty. Necessary conditions only.",
+         "",
+         "3.5, 3.12, 4 (C30)"),
+ "C28": ("dominance rule on identifier registration sites; guard rule in ident.Produce",
+         "Decides that every symbol creation site checks, reports and registers its identifier, and that the leading-digit guard looks at the emitted text. Validity/non-emptiness of identifiers in general is a string computation and is not decided.",
+         "",
+         "3.12, 4 (C28)"),
+ "C13": ("decision-table extraction of (*Expr).Equal by abstract evaluation per expression kind",
+         "Decides only that Equal, which gates the reuse of extracted nonterminals, distinguishes expressions that differ in any component. The expansion rules themselves are not decided.",
+         "",
+         "3.2, 4 (C13)"),
+ "C14": ("decision-table extraction of the predicate evaluator; escape/cycle/sharing rules on the instantiation code",
+         "Decides the boolean semantics of conditional alternatives and the storage/termination discipline of the instantiation passes. Argument propagation is not decided.",
+         "",
+         "3.2, 3.3, 4 (C14)"),
+})
+
 NA = {
+ "C26": "graph algorithms (SCC order, closure, transposition, longest path) are statements about values computed by loops over runtime graphs; util/graph has no encoding, guard, pairing or ownership clause whose violation is visible in the shape of the code — no sound static necessary condition within reach",
+ "C27": "minimality of a Myers edit script and applicability of rendered hunks are numerical/round-trip properties of runtime data; no structural clause to check statically",
 }
 
 ALL = ["C%02d" % i for i in range(1, 31)]
